@@ -252,6 +252,9 @@ NATIVE_TWINS = {
             'every (piece, colour) alone on every square, 3000 pseudo-random placements of up to 14 men, nine queens: score == -score(colour-swapped rotated position), |score| below every mate score; stalemate 0 and strictly better quicker mates at remaining depths 0..255'),
     'C14': ('c14_c15_game_model', ['coordinate_pairs_accepted_iff_legal_played_exactly_rejected_without_effect', 'typed_labels_accepted_iff_legal_played_exactly_rejected_without_effect'],
             '5 positions x all 4096 coordinate pairs (accepted iff legal, successor board and history on acceptance, nothing changed on rejection); notation strings, bounded only: 6 games x 12 plies typed as labels (2 crafted lines with tempo loss), near-miss labels of the other side / previous position rejected without effect'),
+    # not a bounded twin but an EXHAUSTIVE evaluation of this build's book data (C15, second sentence); run in both tiers
+    'C15:book': ('c15_book_lines', None,
+                 'EXHAUSTIVE for the data of this build: every path of the compiled opening book and every line of opening_lines.txt'),
     'C15': ('c14_c15_game_model', ['engine_move_is_a_legal_move_whenever_one_exists'],
             '5 positions (incl. supplied ones) x 8 engine selections at depth 2: a legal move, never an error, board unchanged'),
 }
@@ -287,6 +290,8 @@ def run_native_twin(repo, pid):
         cmd = ['cargo', 'test', '--release', '--offline', '--test', name]
         if tests:
             cmd += ['--'] + tests
+        elif name == 'c15_book_lines':
+            cmd += ['--', '--show-output']
         t0 = time.time()
         p = subprocess.run(cmd, cwd=dst, env=env, stdout=subprocess.PIPE, stderr=subprocess.STDOUT, text=True, timeout=3000)
         out = p.stdout
@@ -499,6 +504,28 @@ def _run_base(pid, cfg, tier, seed):
         return {'report': rep, 'backends': ['kani-cbmc', 'native-exhaustive(python)'], 'violations': viol,
                 'exhaustive': {'what': 'magics_ok + table content for all 64 squares x all subsets of the relevance mask (rook and bishop) on every generated magic_table.rs found',
                                'files': len(rep['magic_constants']), 'cases': sum(r['cases'] for r in rep['magic_constants'])}}
+    if pid == 'C15':
+        # second sentence: the shipped book's lines are legal from the standard starting position -- build-time DATA,
+        # decided by evaluating every line / every path of the compiled book with the (C01-proved) generator
+        k = run_native_twin(repo, 'C15:book')
+        viol = []
+        if k['result'] == 'FAILED':
+            viol.append(_viol(pid, 'book-data', 'opening_lines.txt / create_book()', 'exhaustive', ','.join(k['failed_harnesses']) or 'book',
+                              k['tail'], {'has_input': True, 'checker_cmd': k['cmd'], 'failed_checks': k['failed_checks'],
+                                          'concrete_playback': k['failed_checks']}))
+        elif k['result'] != 'SUCCESSFUL':
+            raise dr.Undecided('book data check did not run: ' + k['tail'][-400:])
+        n_lines = 0
+        try:
+            with open(os.path.join(repo, 'opening_lines.txt')) as f:
+                n_lines = sum(1 for l in f if len(l.rstrip('\n').split(': ')) == 2)
+        except OSError:
+            pass
+        m = re.search(r'book nodes walked: (\d+)', k['tail'])
+        return {'report': {'book_data': {kk: k[kk] for kk in ('cmd', 'result', 'failed_checks', 'failed_harnesses', 'wall_s')}},
+                'backends': ['native-exhaustive(rust test, public API)'], 'violations': viol,
+                'exhaustive': {'what': 'C15 second sentence: every path of the compiled opening book (create_book()) and every line of opening_lines.txt is a legal move sequence from the standard starting position; every source line is present in the compiled book',
+                               'files': 1, 'cases': n_lines, 'book_nodes': int(m.group(1)) if m else None}}
     if pid == 'C18' and tier == 'thorough':
         fb = fallback_bounded(pid)
         return {'report': {'kani_bounded_twin': fb['kani']}, 'backends': ['kani-cbmc (bounded stand-in)'], 'violations': fb['violations'],
